@@ -166,6 +166,9 @@ func (c *checker) integer(v int64, u uint64, isU bool) bool {
 
 // jsonEqual: the decoded JSON value j (json.Decoder with UseNumber) is the Go value v
 func jsonEqual(v interface{}, j interface{}) bool {
+	if isNull(v) {
+		return j == nil
+	}
 	switch x := v.(type) {
 	case nil:
 		return j == nil
@@ -240,7 +243,24 @@ func jsonTextIs(v interface{}, text []byte) bool {
 	return jsonEqual(v, j)
 }
 
+// isNull: the Go values that GoVal.nil stands for (Model/ExportSql.lean): the nil interface, and a nil slice or map inside
+// an interface (what decodeArray's `return nil` becomes in DecodeType; encoding/json writes all three as null)
+func isNull(v interface{}) bool {
+	switch x := v.(type) {
+	case nil:
+		return true
+	case []interface{}:
+		return x == nil
+	case map[string]interface{}:
+		return x == nil
+	}
+	return false
+}
+
 func (c *checker) value(v interface{}) bool {
+	if isNull(v) {
+		return c.word("null")
+	}
 	switch x := v.(type) {
 	case nil:
 		return c.word("null")
@@ -268,6 +288,10 @@ func (c *checker) value(v interface{}) bool {
 	case map[string]interface{}:
 		return c.one(func(t tok) bool { return t.kind == tStr && jsonTextIs(x, t.text) }, "JSON string")
 	case []interface{}:
+		if len(x) == 0 {
+			// PostgreSQL rejects ARRAY[]; the empty array is the string constant '{}'
+			return c.one(func(t tok) bool { return t.kind == tStr && string(t.text) == "{}" }, "'{}' (empty array)")
+		}
 		if !c.word("array") || !c.op("[") {
 			return false
 		}
@@ -309,6 +333,15 @@ func (c *checker) table(t *pgdump.TableDump) bool {
 	if len(t.Rows) == 0 {
 		return true
 	}
+	if len(t.Columns) == 0 {
+		// no column: INSERT INTO name DEFAULT VALUES ; once per row (an empty column or value list is a syntax error)
+		for range t.Rows {
+			if !c.words("insert", "into") || !c.name(t.Name) || !c.words("default", "values") || !c.op(";") {
+				return false
+			}
+		}
+		return true
+	}
 	if !c.words("insert", "into") || !c.name(t.Name) || !c.op("(") {
 		return false
 	}
@@ -335,7 +368,7 @@ func (c *checker) table(t *pgdump.TableDump) bool {
 				return false
 			}
 			v, ok := row[col.Name]
-			if !ok {
+			if !ok || isNull(v) {
 				v = nil
 			}
 			if v != nil && (col.TypID == 114 || col.TypID == 3802) {
